@@ -11,7 +11,7 @@ import math
 import numpy as np
 from numpy.polynomial import legendre as L
 
-from ..kernel import chance, pick, wpick, adigest, Precondition, scribble
+from ..kernel import chance, pick, wpick, adigest, Precondition, scribble, Held
 from .. import present
 
 REAL = ["esutil.integrate.QGauss/QGauss2/qgauss/gauleg (Python + _cgauleg C)", "esutil.stat.interplin"]
@@ -293,6 +293,9 @@ def _data(op):
     return np.ascontiguousarray(x), np.ascontiguousarray(np.asarray(y, dtype="f8"))
 
 
+_HELD = Held()
+
+
 class Boom(Exception):
     pass
 
@@ -335,9 +338,14 @@ def execute(script, run, env):
     explicit_seen = False           # an omitted npts is only judged while none was passed
     last_outcome = "new"
     ncalls = 0
+    del _HELD.items[:]
     for i, op in enumerate(script["ops"]):
         run.step = i
         k = op["k"]
+        if _HELD.items:
+            _HELD.settle(run, "quad.result_overwritten", {})
+            if run.failures:
+                break
         if "npts" in op:
             if op["npts"] is None and explicit_seen:
                 run.event(0, k, "", "skipped")
@@ -624,8 +632,7 @@ def _judge_rule(run, integrate, a, b, n):
     if msgs:
         run.fail("quad.rule", feats, "gauleg(%r,%r,%d): " % (a, b, n) + "; ".join(msgs))
     # the caller owns the rule it was handed and edits it; later rules and integrals must not care
-    if scribble((x, w)):
-        run.fault("caller_edited_a_result_in_place")
+    _HELD.hold((x, w))
 
 
 def _judge_poly(run, integrate, op):
